@@ -25,7 +25,7 @@ ChildLabels(names, consts, vals) ==
   SetToSortSeq({<<names[i], vals[i]>> : i \in DOMAIN names} \cup consts, LAMBDA p, q : SeqLt(p[1], q[1]))
 
 (* state machine form, used for refinement and for sequential histories *)
-CONSTANTS Arity, Tuples
+CONSTANTS Arity, Tuples, Amounts
 VARIABLE children
 Init == children = << >>
 DoGet(vals)    == WellFormed(Arity, vals) /\ children' = Get(children, vals)
@@ -33,7 +33,7 @@ DoAdd(vals, v) == vals \in DOMAIN children /\ children' = Add(children, vals, v)
 DoRemove(vals) == vals \in DOMAIN children /\ children' = Delete(children, vals)
 DoReset        == children' = Clear(children)
 Refused(vals)  == ~WellFormed(Arity, vals) /\ UNCHANGED children                       \* errors create nothing
-Next == \/ \E t \in Tuples : DoGet(t) \/ DoAdd(t, 1) \/ DoRemove(t) \/ Refused(t)
+Next == \/ \E t \in Tuples : DoGet(t) \/ (\E v \in Amounts : DoAdd(t, v)) \/ DoRemove(t) \/ Refused(t)
         \/ DoReset
 Spec == Init /\ [][Next]_children
 OneChildPerTuple == \A a, b \in DOMAIN children : KeyStream(a) = KeyStream(b) => a = b
